@@ -15,6 +15,9 @@ CHECKS={
  "C04":("exploration","runtime monitoring: structural invariant auditor (full raw-store scan at quiescent points) over simulated replica histories + genesis byte-equality across nodes",
         "Held on the explored set: after every step the auditor re-hashes every stored block, resolves every link of every merged commit, re-derives heights, and compares stored head sets (raw and latestCommits) with the maximal merged commits; genesis blocks of the same document on two nodes are byte-compared (unsigned and shared ed25519 identity).",
         "Merged set = commits whose creation or merge returned success (ancestor closed); audits run with no concurrent writer, so no transient state is judged.","6/C04"),
+ "C14":("exploration","runtime monitoring: lock-step twin (file-store node closed/reopened vs never-restarted in-memory node) + replay of every commit-boundary crash prefix from a recorded commit log",
+        "Held on the explored set: generated histories of schema, index, document, ACP and peer-configuration operations with 1-4 restarts; after each restart the full dump (documents incl. deleted, commits, collections incl. inactive versions, schemas, indexes, identifier tables, peer configuration) equals the pre-close dump and the twin's, and every later operation result (assigned ids, docIDs, cids, errors) equals the twin's; for crash histories a DB is opened on the store as of every completed commit and compared with the dump recorded at that operation boundary.",
+        "Crash points are commit boundaries of the key-value store: the atomicity of a corekv/badger commit is trusted (torn writes inside a commit are not generated). Counters/signing are not generated so that cids agree across twins.","6/C14"),
 }
 REASONS={}
 def main():
